@@ -152,7 +152,9 @@ pub fn scratch_dir() -> std::path::PathBuf {
         let mut d = d.borrow_mut();
         if d.is_none() {
             let base = scratch_root();
-            let p = base.join(format!("w{:?}", std::thread::current().id()).replace(['(', ')'], ""));
+            // fixed-length path: the length of the "parsing <path>" line must not depend on pid or thread
+            static NEXT: std::sync::atomic::AtomicUsize = std::sync::atomic::AtomicUsize::new(0);
+            let p = base.join(format!("w{:04}", NEXT.fetch_add(1, std::sync::atomic::Ordering::Relaxed)));
             std::fs::create_dir_all(&p).expect("scratch dir");
             *d = Some(p);
         }
@@ -162,7 +164,7 @@ pub fn scratch_dir() -> std::path::PathBuf {
 
 pub fn scratch_root() -> std::path::PathBuf {
     let base = if std::path::Path::new("/dev/shm").is_dir() { "/dev/shm" } else { "/tmp" };
-    std::path::PathBuf::from(format!("{}/vsim-{}", base, std::process::id()))
+    std::path::PathBuf::from(format!("{}/vsim-{:010}", base, std::process::id()))
 }
 
 pub fn cleanup_scratch() {
